@@ -13,9 +13,10 @@
    req.http.Foo reading as an empty SET string.  The model mirrors the repaired code, where
    C17_get_unset holds for every pair of spellings; corpus/C17/case_keyed.hist keeps the input.) *)
 From Coq Require Import List NArith Bool.
+From Coq Require Import Strings.Byte.
 From Falco Require Import Base.Bytes Model.HdrField Model.Hdr Model.HdrSpec Gen.HdrTables
   Model.HdrMulti Proofs.HdrScan Proofs.HdrItems Proofs.HdrStore Proofs.HdrLaws1 Proofs.HdrLaws2 Proofs.HdrLaws3 Proofs.HdrExamples
-  Proofs.HdrMulti Proofs.HdrWildcard.
+  Proofs.HdrMulti Proofs.HdrWildcard Proofs.HdrAlgebra.
 Import ListNotations.
 
 (* ---- refinement ------------------------------------------------------------------------- *)
@@ -188,6 +189,46 @@ Theorem C17_wildcard_old_refuted :
       header_get (h_unset_wild_old st2 p2) name <> [].
 Proof. exact wildcard_old_refuted. Qed.
 
+(* ---- algebraic laws over every later history: two stores with the same abstraction answer
+   every later history alike; an overwritten write, a write followed by an unset, and the order
+   of writes to two different headers cannot be observed by ANY later sequence of operations
+   (reads of whole headers or sub-fields, adds, sets, unsets, wildcard unsets, cookies). *)
+Theorem C17_same_abstraction_same_future : forall kd h s1 s2, aeq (abs s1) (abs s2) ->
+  snd (run kd s1 h) = snd (run kd s2 h) /\ aeq (abs (fst (run kd s1 h))) (abs (fst (run kd s2 h))).
+Proof. exact abs_equiv_observations. Qed.
+
+Theorem C17_set_set_last_wins : forall kd st n v1 v2 h, whole_ok n = true ->
+  snd (run kd (after kd (after kd st (OSet n v1)) (OSet n v2)) h) =
+  snd (run kd (after kd st (OSet n v2)) h).
+Proof. exact set_set_unobservable. Qed.
+
+Theorem C17_set_unset_is_unset : forall kd st n v h, whole_ok n = true ->
+  snd (run kd (after kd (after kd st (OSet n v)) (OUnset n)) h) =
+  snd (run kd (after kd st (OUnset n)) h).
+Proof. exact set_unset_unobservable. Qed.
+
+Theorem C17_sets_commute : forall kd st n1 n2 v1 v2 h, whole_ok n1 = true -> whole_ok n2 = true ->
+  beq (canon n1) (canon n2) = false ->
+  snd (run kd (after kd (after kd st (OSet n1 v1)) (OSet n2 v2)) h) =
+  snd (run kd (after kd (after kd st (OSet n2 v2)) (OSet n1 v1)) h).
+Proof. exact set_set_commute. Qed.
+
+
+Theorem C17_unset_idempotent : forall kd st n h, whole_ok n = true ->
+  snd (run kd (after kd (after kd st (OUnset n)) (OUnset n)) h) =
+  snd (run kd (after kd st (OUnset n)) h).
+Proof. exact unset_unset_idempotent. Qed.
+
+Theorem C17_unset_set_is_set : forall kd st n v h, whole_ok n = true ->
+  snd (run kd (after kd (after kd st (OUnset n)) (OSet n v)) h) =
+  snd (run kd (after kd st (OSet n v)) h).
+Proof. exact unset_set_is_set. Qed.
+
+(* non-vacuity: a concrete name meets the hypotheses, and the two spellings X-A / X-B are different keys *)
+Example C17_algebra_nonvacuous :
+  whole_ok [x58; x2d; x41] = true /\ whole_ok [x58; x2d; x42] = true /\ beq (canon [x58; x2d; x41]) (canon [x58; x2d; x42]) = false.
+Proof. vm_compute. repeat split. Qed.
+
 Print Assumptions C17_refine_step.
 Print Assumptions C17_refinement.
 Print Assumptions C17_get_field_refines.
@@ -217,3 +258,9 @@ Print Assumptions C17_wildcard_unset_notset.
 Print Assumptions C17_wildcard_unset_frame.
 Print Assumptions C17_wildcard_unset_case.
 Print Assumptions C17_wildcard_old_refuted.
+Print Assumptions C17_same_abstraction_same_future.
+Print Assumptions C17_set_set_last_wins.
+Print Assumptions C17_set_unset_is_unset.
+Print Assumptions C17_sets_commute.
+Print Assumptions C17_unset_idempotent.
+Print Assumptions C17_unset_set_is_set.
